@@ -357,13 +357,57 @@ func c12OneLocalMake(cx *c11Flood, v ssa.Value, user *ssa.Call) bool {
 	return head == 1
 }
 
+// c12OneLocalAppend: v is append(<empty list>, local id) — an empty list being nil, a list
+// literal without elements, or make([]AgentID, 0, …) that is written nowhere else.
+func c12OneLocalAppend(cx *c11Flood, v ssa.Value) bool {
+	c, ok := v.(*ssa.Call)
+	if !ok || kit.CalleeOf(c).Built != "append" || len(c.Call.Args) != 2 || !c12OneLocal(cx, c.Call.Args[1]) {
+		return false
+	}
+	switch e := c.Call.Args[0].(type) {
+	case *ssa.Const:
+		return e.Value == nil
+	case *ssa.MakeSlice:
+		if k, isc := kit.ConstInt(e.Len); !isc || k != 0 || e.Referrers() == nil {
+			return false
+		}
+		for _, ref := range *e.Referrers() {
+			switch y := ref.(type) {
+			case *ssa.Call:
+				if y == c {
+					continue
+				}
+				if b := kit.CalleeOf(y).Built; b == "len" || b == "cap" {
+					continue
+				}
+				return false
+			case *ssa.DebugRef:
+			default:
+				return false
+			}
+		}
+		return true
+	case *ssa.Slice:
+		// []AgentID{} literal: slice of a zero-length array
+		if a, ok := e.X.(*ssa.Alloc); ok {
+			if arr, ok := a.Type().(*types.Pointer).Elem().Underlying().(*types.Array); ok && arr.Len() == 0 {
+				return true
+			}
+		}
+	}
+	return false
+}
+
 // c12Prepend recognises "local id followed by tail": append([]AgentID{local}, tail...), or
 // make + p[0]=local + copy(p[1:], tail), or the bare []AgentID{local} (tail == nil, empty=true).
 func c12Prepend(cx *c11Flood, v ssa.Value) (tail ssa.Value, empty bool, ok bool) {
 	switch x := v.(type) {
 	case *ssa.Call:
-		if kit.CalleeOf(x).Built == "append" && len(x.Call.Args) == 2 && (c12OneLocal(cx, x.Call.Args[0]) || c12OneLocalMake(cx, x.Call.Args[0], x)) {
+		if kit.CalleeOf(x).Built == "append" && len(x.Call.Args) == 2 && (c12OneLocal(cx, x.Call.Args[0]) || c12OneLocalMake(cx, x.Call.Args[0], x) || c12OneLocalAppend(cx, x.Call.Args[0])) {
 			return x.Call.Args[1], false, true
+		}
+		if c12OneLocalAppend(cx, x) {
+			return nil, true, true
 		}
 	case *ssa.Slice:
 		if c12OneLocal(cx, x) {
@@ -1359,7 +1403,7 @@ func c12ForwardedPath(cx *c11Flood, l *c11Lit) []string {
 	}
 	for _, a := range c12Alts(ep, nil) {
 		// the received *EncryptedData itself, unchanged
-		if c12IsReceivedEnc(cx, a.v) {
+		if c12IsReceivedEnc(cx, a.v) || kit.IsNilConst(a.v) { // nil: "no path", same as handing the absent path on
 			// unchanged forwarding is right only where the path is absent or encrypted: the place where
 			// this alternative is chosen must be unreachable for a present plaintext path
 			okRaw := !c12SiteReachable(cx, a.site)
